@@ -123,7 +123,26 @@ def generate(rng, tier):
         n = rng.randrange(10, 140)
         th = list(range(nth))
         mode = rng.random()
-        if mode < 0.4:
+        if mode < 0.2:
+            # staged: whole phases of one thread each, so that calls overlap - measurements, a ForceFlush, the worker and its
+            # collect thread part of the way through the cycle, more measurements and a second ForceFlush (or Shutdown) that
+            # arrive while the first is being served, the rest of the cycle, the callers' returns
+            nrec, recs = 2, rng.randrange(1, 4)
+            fl = ''.join(rng.choice('ii0') for _ in range(2))
+            nshut = rng.choice([0, 0, 1])
+            nth = 1 + nrec + len(fl) + nshut + 3
+            th = list(range(nth))
+            R1, R2, F1, F2 = 1, 2, 3, 4
+            S1 = 5 if nshut else None
+            C = 1 + nrec + len(fl) + nshut          # the first collect thread the worker spawns
+            stages = [(R1, rng.randrange(2, 8)), (F1, rng.randrange(4, 12)), (0, rng.randrange(2, 14)), (C, rng.randrange(0, 8)),
+                      (R2, rng.randrange(2, 8)), (F2 if S1 is None or rng.random() < 0.7 else S1, rng.randrange(4, 12)),
+                      (C, rng.randrange(0, 10)), (0, rng.randrange(4, 30)), (C + 1, rng.randrange(0, 10)), (0, rng.randrange(4, 30)),
+                      (F1, rng.randrange(2, 8)), (F2, rng.randrange(2, 8))]
+            if S1 is not None and rng.random() < 0.5:
+                stages.insert(rng.randrange(3, len(stages)), (S1, rng.randrange(3, 12)))
+            sched = [t for t, k in stages for _k in range(k)]
+        elif mode < 0.4:
             cur = rng.choice(th); sched = []
             for _k in range(n):
                 if rng.random() < 0.15:
